@@ -136,6 +136,11 @@ def checkTakeoff (segs : List SegX) (z0 : Rat) (q ans : String) : Except String 
             match earl with
             | .fin e =>
               if e < 0 then .error "takeoff: negative crossing time" else
+              -- constant-altitude segments are compared exactly: a crossing inside the initial hover means its altitude IS the target
+              let hoverEnd : Rat := (((segs.takeWhile (fun s => s.nz == 1)).map (·.durMs)).sum : Nat) / 1000
+              if e < hoverEnd - 1 / 2000 ∧ target ≠ z0 then
+                .error s!"takeoff: crossing reported at {ratToString e} s inside the initial hover (altitude {ratToString z0}) although the takeoff altitude is {ratToString target}"
+              else
               if !yieldsAltitude segs e target then .error s!"takeoff: at the reported crossing {ratToString e} s the altitude is not {ratToString target}"
               else
                 match reachedBefore segs e target with
@@ -199,6 +204,11 @@ def checkLanding (segs : List SegX) (q ans : String) : Except String (List Strin
               else if descent ≥ p + noise then
                 if inside then .ok [s!"landing:inside-run:{run.length}", mtag]
                 else .error s!"landing: at the reported {ratToString prop} s the remaining descent is not {ratToString p} (level {ratToString level}, run starts {ratToString startR})"
+              else if descent = p ∧ run.all (fun s => s.z.length ≤ 2) then
+                -- exactly the preferred descent, in a run of constant / linear altitude segments (integers times the scale: no rounding is involved): "no more than
+                -- the preferred descent", so the start of the run, not a later instant of a hover at its beginning
+                if prop = startR then .ok ["landing:boundary-exact"]
+                else .error s!"landing: the final descent is exactly the preferred {ratToString p}: expected the start of the run {ratToString startR}, got {ratToString prop}"
               else
                 if prop = startR ∨ inside then .ok ["landing:boundary"] else .error s!"landing: boundary case, got {ratToString prop}"
         | _, _ => .error "landing: unreachable"
